@@ -72,9 +72,11 @@ def findings(job, line):
         specs = [c for c in calls.split(';') if c != 'reset']
         first = {}
         for s, o in zip(specs, outs):
-            if s in first and first[s] != o:
-                errs.append('C08 call %s returned different bytes on reuse (%d vs %d bytes)' % (s, len(first[s]), len(o)))
-            first.setdefault(s, o)
+            # `fresh:H` / `freshseed` run the same call on a new generator: results must agree with the reused one
+            key = 'hex:' + s[6:] if s.startswith('fresh:') else ('seed' if s == 'freshseed' else s)
+            if key in first and first[key] != o:
+                errs.append('C08 call %s returned different bytes on a reused generator than on a fresh one (%d vs %d bytes)' % (key, len(first[key]), len(o)))
+            first.setdefault(key, o)
     o = outs[-1] if calls else outs[0]
     mn = int(d['min']) if 'min' in d else 60
     mx = int(d['max']) if 'max' in d else 300
@@ -109,24 +111,38 @@ def grid(prop, quick, seed=0):
         mutsets += ['mut=' + ','.join(MUTS) + ' rate=1.0 unsafe=1', 'mut=typeconfusion,memoindex rate=0.7 unsafe=1']
     if prop == 'C08':
         out = []
+        hist = ['00', '01', 'ff7f', 'aa2d8e', '0101010101']     # earlier calls (even/odd first byte = unframed/framed for P >= 4)
         for P in range(6):
-            for i in inputs[:200]:
+            for i in inputs[:120]:
                 if i.startswith('hex='):
                     h = i[4:]
-                    out.append('P=%d calls=hex:%s;hex:%s' % (P, h, h))
-                    out.append('P=%d calls=hex:%s;reset;hex:%s' % (P, h, h))
-                    out.append('P=%d calls=hex:00;hex:%s;hex:%s' % (P, h, h))
+                    out.append('P=%d calls=hex:%s;hex:%s;fresh:%s' % (P, h, h, h))
+                    for k, e in enumerate(hist):
+                        mid = ';reset' if k % 2 else ''
+                        out.append('P=%d calls=hex:%s%s;hex:%s;fresh:%s' % (P, e, mid, h, h))
+                    out.append('P=%d calls=hex:01;hex:00;reset;hex:%s;fresh:%s' % (P, h, h))
                 else:
-                    out.append('P=%d %s calls=seed;seed' % (P, i))
+                    out.append('P=%d %s calls=seed;seed;freshseed' % (P, i))
+                    out.append('P=%d %s calls=hex:01;seed;freshseed' % (P, i))
         return out
+    if prop == 'C11':
+        mutsets += ['mut=stringlen rate=1.0']
+        ranges += ['min=2 max=2', 'min=3 max=3']
     combos = list(itertools.product(range(6), ranges, mutsets, flags))
+    # the plain default configuration gets many medium-sized pickles: rare opcode interleavings
+    # (nested MARKs, particular kinds on top) need a few thousand samples to show up
+    for P in range(6):
+        for sd in range(120 if quick else 1500):
+            jobs.append('P=%d seed=%d min=150 max=400' % (P, sd))
     # every combination gets a few inputs; the cheap default configuration gets all of them
     for (P, r, m, f) in combos:
         if 'min=9000' in r and not (P >= 4 and m == '' and f == ''):
             continue
         if ('min=3000' in r or 'min=30000' in r) and f != '':
             continue
-        per = inputs if (r == '' and m == '' and f == '' and not quick) else rnd.sample(inputs, 6 if quick else 24)
+        per = inputs if (r == '' and m == '' and f == '') else rnd.sample(inputs, 6 if quick else 24)
+        if prop == 'C11' and r in ('min=0 max=0', 'min=1 max=2', 'min=5 max=3', 'min=2 max=2', 'min=3 max=3') and 'stringlen' in m:
+            per = ['seed=%d' % k for k in range(600 if P == 1 else 60)]
         if 'min=30000' in r or 'min=3000' in r or 'min=9000' in r:
             per = ['seed=0', 'seed=1', 'seed=2', 'seed=3', 'hex=', 'hex=ff01']
         for i in per:
